@@ -15,6 +15,7 @@ From Coq Require Import List NArith Bool.
 From Conductor Require Import Lib.Str Lib.Cmp Lib.Path Gen.Generated Model.Cwd
   Proofs.PathProofs Proofs.CwdProofs Refuted.CwdOld.
 From Conductor Require Model.ArchiveOut Proofs.ArchiveOutCwd.
+From Conductor Require Import Proofs.GenTieWhere.
 Import ListNotations.
 Local Open Scope N_scope.
 
@@ -121,6 +122,27 @@ Proof.
   intros. split; [apply Proofs.ArchiveOutCwd.cwd_model_takes_the_decision|apply Proofs.ArchiveOutCwd.cwd_model_decision_is_the_sources].
 Qed.
 Print Assumptions C17_archive_output_location_is_the_sources.
+
+(* `cond where` / conductor.lib.where(): the answer is the function TRANSLATED from lib/path.py of the working tree (the same
+   decision -- nothing / relative to the project root / absolute -- on every output path, file system and flag combination),
+   computed with a Context built INSIDE the call (so a long-lived process sees the HEAD, index and configuration current at
+   each call; seed C05/j kept the first one), and a location is reported only if it exists unless -f was given. *)
+Theorem C17_where_is_the_sources : forall ex root out nok rel,
+  gen_where_context_is_fresh_per_call = true /\
+  where_answer ex root out nok rel =
+  match gen_where_decision (match out with None => true | Some _ => false end)
+                           (match out with Some o => ex o | None => false end) nok rel, out with
+  | 1, Some o => match relative_to root o with Some r => Some (ShRel r) | None => None end
+  | 2, Some o => Some (ShAbs o)
+  | _, _ => None
+  end.
+Proof. exact where_tie. Qed.
+Print Assumptions C17_where_is_the_sources.
+
+Theorem C17_where_reports_only_what_exists : forall ex root out rel s,
+  where_answer ex root out false rel = Some s -> exists o, out = Some o /\ ex o = true.
+Proof. exact where_reports_existing. Qed.
+Print Assumptions C17_where_reports_only_what_exists.
 
 (* non-vacuity: /r has the config file, /r/a also has a directory of that name (has_cfg answers
    is_file, so false), cwd = /r/a/b: the root found is /r; `cond gc -n` from there prints
